@@ -310,10 +310,53 @@ class Session:
                      direction})
         ctx.case((self.cfg, 'overlap', direction, self.async_handlers), None)
 
+    def reconnect_after_partial(self):
+        """The connection is lost while a message of several frames is on
+        its way to the client; the application connects the same client
+        object again.  Nothing that was not sent reaches a handler and the
+        new connection is as transparent as the first."""
+        rng, b, ctx = self.rng, self.b, self.ctx
+        ns = rng.choice(NSS)
+        natt = rng.choice([1, 2, 3])
+        data = {'k': [bytes([i]) * (i + 1) for i in range(natt)], 'n': natt}
+        keep = rng.randint(1, natt)       # header + keep-1 attachments
+        name = self.new_name()
+        self.rets[name] = None
+        n0 = len(self.records)
+        self.history.append({'partial_loss': name, 'ns': ns, 'frames_kept':
+                             keep, 'attachments': natt})
+        sio = b.d.sio
+        if b.is_async:
+            async def send():
+                await sio.emit(name, data, to=self.sids[ns], namespace=ns)
+        else:
+            def send():
+                sio.emit(name, data, to=self.sids[ns], namespace=ns)
+        try:
+            b.partial_loss(send, keep)
+            b.client('connect', 'http://bridge', namespaces=list(NSS))
+        except Exception as e:
+            return self.fail('connecting again after a connection that was '
+                             'lost in the middle of a message raised %r'
+                             % e)
+        for r in self.records[n0:]:
+            if r[2] != name or not R.deep_eq(r[3], [data]):
+                return self.fail('after a connection lost in the middle of '
+                                 'a message a handler was invoked with '
+                                 'something nobody sent: %r' % (r,))
+        errs = b.errors()
+        if errs:
+            return self.fail('errors while connecting again: %r' % [
+                e.get('exc') for e in errs[:2]])
+        self.sids = {ns: b.h.c.get_sid(ns) for ns in NSS}
+        ctx.count('reconnects_after_partial_message')
+
     def run(self):
         rng = self.rng
         for _ in range(rng.choice([20, 40])):
-            if self.b.is_async and self.co and rng.random() < 0.06:
+            if self.cfg[1] == 'default' and rng.random() < 0.03:
+                self.reconnect_after_partial()
+            elif self.b.is_async and self.co and rng.random() < 0.06:
                 self.overlap()
             elif rng.random() < 0.12:
                 self.burst()
@@ -368,6 +411,7 @@ def run(ctx):
     ctx.require('bursts_judged', 10)
     ctx.require('overlapping_callback_groups', 5)
     ctx.require('binary_frames_through_bridge', 50)
+    ctx.require('reconnects_after_partial_message', 5)
     for cfg in CONFIGS:
         ctx.require('sessions_%s_%s_%s' % cfg, 1)
     # real transport (threaded pairing over 127.0.0.1, HTTP long-polling)
